@@ -1,3 +1,188 @@
-/-! # C10 — (stub: property theorems go here; see docs/BUILDING.md) -/
+import PtVerif.Proofs.Lazy
+import PtVerif.Generated.LazyConfig
+/-!
+# C10 — private tables are isolated from the public table and from each other
+
+Model and configuration as in C09 (`PtVerif.Model.Lazy`, `PtGen.lazyConfig`, regenerated from the
+source on every run).  Histories range over the public table (0) and two private tables (1, 2):
+table creation (no effect on the lazy state), `module.init(T)` for the nine inits in any order
+relative to any use of the public table, reads / `hasattr` on any table, assignment and in-place
+mutation on atoms of private tables – `runOK`.  Excluded by `runOK` (finding D19): in-place
+mutation of a class-level default object (the `Neutron()` placeholder that `Element.neutron` /
+`Isotope.neutron` point to is one object for all tables); the full statement without that
+exclusion is `public_unchanged_full`, refuted by `public_unchanged_counterexample`.
+
+Clauses carried elsewhere: "pickled atoms of T are restored into T" is C08 `pickle_roundtrip_id`
+(the restored object is the very same object, hence in T); "formulas parsed with table=T contain
+only atoms of T" is judged by the oracle of `harness/ptv/props/C10.py` only (the grammar is C01's).
+-/
 namespace PtVerif.C10
+open PtLazy
+
+def cfg : Config := PtGen.lazyConfig
+
+/-- the current source satisfies the isolation condition -/
+theorem safe_generated3 : SafeIso3 tables3 cfg = true := by decide +kernel
+
+theorem safe_generated2 : SafeIso2 tables3 cfg = true := (safeIso3_at safe_generated3).1
+
+theorem safe_generated : SafeIso tables3 cfg = true := (safeIso2_at safe_generated2).1
+
+/-- **public_unchanged**: whatever happens on private tables – inits before or after the first
+    public touch, assignments, in-place mutation of their per-atom data – and in whatever order
+    the public table is used, a read of the public table serves what a fresh interpreter serves -/
+theorem public_unchanged (c : Config) (hsafe : SafeCfg tables3 c = true) (hsh : NoSharedCfg c)
+    (h : List Event) (hok : runOK tables3 c c.init h) (chain : List Node) (hch : ChainOK chain) (p : Nat) :
+    (step c (run c c.init h) (.read 0 chain p)).2 = canon c (.read 0 chain p) :=
+  public_read_canon hsafe (ginv_run hsafe h _ (ginv_init hsafe) hok (fun _ _ _ => hsh)) chain hch p
+
+theorem public_unchanged_hasattr (c : Config) (hsafe : SafeCfg tables3 c = true) (hsh : NoSharedCfg c)
+    (h : List Event) (hok : runOK tables3 c c.init h) (chain : List Node) (hch : ChainOK chain) (p : Nat) :
+    (step c (run c c.init h) (.has 0 chain p)).2 = canon c (.has 0 chain p) :=
+  public_has_canon hsafe (ginv_run hsafe h _ (ginv_init hsafe) hok (fun _ _ _ => hsh)) chain hch p
+
+theorem public_unchanged_generated (h : List Event) (hok : runOK tables3 cfg cfg.init h) (chain : List Node)
+    (hch : ChainOK chain) (p : Nat) :
+    (step cfg (run cfg cfg.init h) (.read 0 chain p)).2 = canon cfg (.read 0 chain p) :=
+  public_unchanged cfg (safeIso_at safe_generated).1 (safeIso_at safe_generated).2.2.2 h hok chain hch p
+
+/-- **private_fresh_equals_public**: after any history, initialise the attribute's group on a
+    private table that carries no user values; that table then serves, for every atom and route,
+    what the public table serves (in a fresh interpreter) -/
+theorem private_fresh_equals_public (c : Config) (hsafe : SafeIso tables3 c = true) (h : List Event)
+    (hok : runOK tables3 c c.init h) (t : Nat) (ht : t ∈ privTables)
+    (hclean : TableClean t (run c c.init h).log)
+    (chain : List Node) (hch : ChainOK chain) (p gi : Nat) (g : GroupCfg)
+    (hgi : c.groupOf p = some gi) (hg : c.groups[gi]? = some g) :
+    (step c (step c (run c c.init h) (.init g.loader t)).1 (.read t chain p)).2
+      = canon c (.read 0 chain p) := by
+  obtain ⟨h1, h2, h3, h4⟩ := safeIso_at hsafe
+  exact private_fresh_canon h1 h2 (ginv_run h1 h _ (ginv_init h1) hok (fun _ _ _ => h4)) ht hclean chain hch p gi g hgi hg
+    (h3 g (List.mem_of_getElem? hg)) (by
+      unfold privTables at ht; unfold tables3
+      rcases List.mem_cons.mp ht with rfl | h'
+      · simp
+      · rcases List.mem_cons.mp h' with rfl | h''
+        · simp
+        · cases h'')
+
+/-- the same in state form: after *any* history, a private table t on which the attribute's group
+    has been initialised at some point (`inited`) and that carries no user values serves the public
+    values – whatever happened on the public table or on the other private table before or after -/
+theorem private_initialised_equals_public (c : Config) (hsafe : SafeIso2 tables3 c = true) (h : List Event)
+    (hok : runOK tables3 c c.init h) (t : Nat) (ht : t ∈ privTables)
+    (hclean : TableClean t (run c c.init h).log)
+    (chain : List Node) (hch : ChainOK chain) (p : Nat)
+    (hin : ∀ gi g cs, c.groupOf p = some gi → c.groups[gi]? = some g →
+      (run c c.init h).gs[gi]? = some cs → inited g cs t = true) :
+    (step c (run c c.init h) (.read t chain p)).2 = canon c (.read 0 chain p) := by
+  obtain ⟨h0, h5⟩ := safeIso2_at hsafe
+  obtain ⟨h1, _, _, h4⟩ := safeIso_at h0
+  exact private_inited_canon h1 h5 (ginv_run h1 h _ (ginv_init h1) hok (fun _ _ _ => h4)) ht hclean
+    chain hch p hin
+
+/-- **objects_disjoint**: the per-atom objects of two tables are different objects – a fresh
+    in-place mutation mark made through table t is never seen through any other table (public or
+    private), whatever is read there -/
+theorem objects_disjoint (c : Config) (hsafe : SafeCfg tables3 c = true) (hsh : NoSharedCfg c) (h : List Event)
+    (hok : runOK tables3 c c.init h) (t : Nat) (chain : List Node) (p n : Nat)
+    (hev : evOK tables3 c (run c c.init h) (.mutate t chain p n))
+    (hfresh : ∀ e ∈ (run c c.init h).log, ∀ sc a p' src, e ≠ LEntry.mark sc a p' src n)
+    (t' : Nat) (ht' : t' ≠ t) (chain' : List Node) (p' : Nat) :
+    n ∉ (step c (step c (run c c.init h) (.mutate t chain p n)).1 (.read t' chain' p')).2.marks :=
+  mark_not_seen_elsewhere hsafe hsh (ginv_run hsafe h _ (ginv_init hsafe) hok (fun _ _ _ => hsh)) t chain p n hev hfresh
+    t' ht' chain' p'
+
+/-- **private tables are isolated from each other (and the public one) under assignment**: after
+    `x.p = v` on an atom of table t, any other table serves exactly what it served before -/
+theorem assignment_isolated (c : Config) (hsafe : SafeIso3 tables3 c = true) (h : List Event)
+    (hok : runOK tables3 c c.init h) (t : Nat) (chain : List Node) (p v : Nat)
+    (hev : evOK tables3 c (run c c.init h) (.assign t chain p v))
+    (t' : Nat) (ht' : t' ∈ tables3) (hne : t' ≠ t) (chain' : List Node) (hch : ChainOK chain') (p' : Nat) :
+    (step c (step c (run c c.init h) (.assign t chain p v)).1 (.read t' chain' p')).2
+      = (step c (run c c.init h) (.read t' chain' p')).2 := by
+  obtain ⟨h2, hf, htr⟩ := safeIso3_at hsafe
+  obtain ⟨h1, _, _, h4⟩ := safeIso_at (safeIso2_at h2).1
+  exact assign_isolated h1 hf htr (ginv_run h1 h _ (ginv_init h1) hok (fun _ _ _ => h4)) t chain p v hev
+    ht' hne chain' hch p'
+
+/-- … and under in-place mutation (of anything but a class-level default object) -/
+theorem mutation_isolated (c : Config) (hsafe : SafeIso3 tables3 c = true) (h : List Event)
+    (hok : runOK tables3 c c.init h) (t : Nat) (chain : List Node) (p n : Nat)
+    (hev : evOK tables3 c (run c c.init h) (.mutate t chain p n))
+    (t' : Nat) (ht' : t' ∈ tables3) (hne : t' ≠ t) (chain' : List Node) (hch : ChainOK chain') (p' : Nat) :
+    (step c (step c (run c c.init h) (.mutate t chain p n)).1 (.read t' chain' p')).2
+      = (step c (run c c.init h) (.read t' chain' p')).2 := by
+  obtain ⟨h2, hf, htr⟩ := safeIso3_at hsafe
+  obtain ⟨h1, _, _, h4⟩ := safeIso_at (safeIso2_at h2).1
+  exact mutate_isolated h1 h4 hf htr (ginv_run h1 h _ (ginv_init h1) hok (fun _ _ _ => h4)) t chain p n hev
+    ht' hne chain' hch p'
+
+/-- assignments are local as well: the log never holds a user value of the public table -/
+theorem no_public_user_values (c : Config) (hsafe : SafeCfg tables3 c = true) (hsh : NoSharedCfg c)
+    (h : List Event) (hok : runOK tables3 c c.init h) (node : Node) (p : Nat) :
+    userVal (run c c.init h).log 0 node p = none :=
+  userVal_public (ginv_run hsafe h _ (ginv_init hsafe) hok (fun _ _ _ => hsh)).log node p
+
+/-! ## the full statement, and why it is only proved with the exclusion (finding D19) -/
+
+/-- events without the D19 exclusion -/
+def evOKFull : Event → Prop
+  | .read t _ _ => t ∈ tables3
+  | .has t _ _ => t ∈ tables3
+  | .init _ t => t ∈ tables3
+  | .importMod _ => True
+  | .assign t _ _ _ => t ∈ tables3 ∧ t ≠ 0
+  | .mutate t _ _ _ => t ∈ tables3 ∧ t ≠ 0
+
+def public_unchanged_full : Prop :=
+  ∀ (h : List Event), (∀ e ∈ h, evOKFull e) → ∀ (chain : List Node), ChainOK chain → ∀ p,
+    (step cfg (run cfg cfg.init h) (.read 0 chain p)).2 = canon cfg (.read 0 chain p)
+
+/-- an element without a neutron record (Og) – attribute 4 = `neutron` -/
+def og : List Node := [⟨.element, 118, []⟩]
+
+/-- mutating in place what a private table serves for an atom without a neutron record (the
+    class-level placeholder) changes what the public table serves for every such atom -/
+theorem public_unchanged_counterexample : ¬ public_unchanged_full := by
+  intro hfull
+  have := hfull [.mutate 1 og 4 7] (by intro e he; simp at he; subst he; simp [evOKFull, tables3]) og
+    (by decide) 4
+  revert this
+  decide +kernel
+
+/-! ## non-vacuity, and the pinned tree -/
+
+/-- Fe with a structure record; init 3 = `crystal_structure.init`, attribute 3 = `crystal_structure` -/
+def fe : List Node := [⟨.element, 26, [(3, 1)]⟩]
+
+def hist1 : List Event := [.init 3 1, .mutate 1 fe 3 5, .assign 2 fe 3 9, .init 3 2]
+
+example : runOK tables3 cfg cfg.init hist1 := runOK_of_b (by decide +kernel)
+example : (step cfg (run cfg cfg.init hist1) (.read 0 fe 3)).2 = .data 3 1 [] := by decide +kernel
+example : (step cfg (run cfg cfg.init hist1) (.read 1 fe 3)).2 = .data 3 1 [5] := by decide +kernel
+example : (step cfg (run cfg cfg.init hist1) (.read 2 fe 3)).2 = .data 3 1 [] := by decide +kernel
+example : TableClean 2 (run cfg cfg.init [.init 3 1, .mutate 1 fe 3 5]).log := tableClean_of_b (by decide +kernel)
+
+/-- the pinned tree: structure records stored by reference, setter without the load, `nsf.init`
+    without the forcing read -/
+def cfgPinned : Config :=
+  { cfg with groups := cfg.groups.map fun g =>
+      { g with
+        setter := [.clear, .set]
+        inits := g.inits.map fun mi => (mi.1, (mi.2.filter (· ≠ .probe .element 4 true)).map fun e =>
+          match e with
+          | .instWrite c 3 sel _ => .instWrite c 3 sel true
+          | e => e) } }
+
+theorem pinned_unsafe : SafeIso tables3 cfgPinned = false := by decide +kernel
+
+/-- D13 / D14 on the pinned tree: `nsf.init(T)` first disables the public neutron data; a record
+    mutated through T is the public table's record -/
+theorem pinned_counterexamples :
+    (step cfgPinned (run cfgPinned cfgPinned.init [.init 4 1]) (.read 0 [⟨.element, 26, [(4, 3), (4, 7)]⟩] 4)).2
+      ≠ canon cfgPinned (.read 0 [⟨.element, 26, [(4, 3), (4, 7)]⟩] 4) ∧
+    (step cfgPinned (run cfgPinned cfgPinned.init [.read 0 fe 3, .init 3 1, .mutate 1 fe 3 5])
+      (.read 0 fe 3)).2 = .data 3 1 [5] := by decide +kernel
+
 end PtVerif.C10
